@@ -197,6 +197,20 @@ theorem c11_rel_users (w : World) (sw : SWorld)
     Rel Auth.genCfg env w sw :=
   rel_of_history Auth.genCfg env c11_user_facts w sw hu ha ht
 
+/-- The configuration computed from the regenerated facts IS the reviewed configuration written out
+    in Lemmas/AuthWitness.lean (`cfgFixed`): every flag on, the TTLs, the open paths.  The concrete
+    examples and counter-examples below are evaluated with `cfgFixed` (so that the kernel does not
+    re-compare the generated skeletons in every step); this theorem is what makes them statements
+    about the current tree. -/
+theorem c11_cfg_is_reviewed : Auth.genCfg = Witness.cfgFixed := by
+  obtain ⟨h1, h2, h3, h4, h5, h6, h7, h8, h9, h10, h11, _⟩ := c11_model_flags
+  have h12 := c11_identity_flag
+  have e : ∀ c : Auth.Cfg, c = ⟨c.pm, c.initResets, c.tsPermDir, c.permCanonical, c.wsRtspChecks, c.digestShowsNewNonce,
+      c.wspJoinChecks, c.wspPlayChecks, c.identityReplaces, c.accessTTL, c.refreshTTL, c.noAuth, c.streamQueryPrefix⟩ :=
+    fun c => by cases c; rfl
+  rw [e Auth.genCfg, h1, h2, h3, h4, h5, h6, h7, h8, h9, h10, h11, h12]
+  rfl
+
 /-! ## the entry points -/
 
 /-- **The caller's identity comes from the token only.**  The verified user name travels to the
@@ -419,6 +433,96 @@ theorem c11_tokens_simulate_grants (ops : List TokOp) (k : Nat) :
   have hTTL : Auth.genCfg.accessTTL ≤ Auth.genCfg.refreshTTL := by
     rw [c11_model_flags.2.2.2.2.2.2.2.1, c11_model_flags.2.2.2.2.2.2.2.2.1]; decide
   exact (Sim.run Auth.genCfg hTTL ops TState.init [] Sim.init).access k
+
+/-! ### non-vacuity of the hypotheses used above
+
+A concrete world: alice (pull `/cam/+`), bob (pull `/a/b`, narrowed from `/a/*`), carl deleted,
+root administrator; alice, bob and root logged in, bob's first token refreshed away, an hour gone. -/
+section
+open IpcHub.Auth.Witness
+
+def exHist : List AdminOp :=
+  [.save (user "bob" "/a/b" "") false, .del "carl".toList,
+   .save { name := "root".toList, password := .plain "pw".toList, admin := true, push := [], pull := [] } true,
+   .save (user "carl" "*" "*") true, .save (user "bob" "/a/*" "/pub/*") true, .save (user "alice" "/cam/+" "") true]
+
+def exTokOps : List TokOp :=
+  [.login "alice".toList, .login "bob".toList, .tick 600, .refresh 3, .login "root".toList, .tick 3000, .access 2, .sweep]
+
+def exWorld : World :=
+  let p := grun Auth.genCfg TState.init [] exTokOps
+  { authOn := true, users := usersOf Auth.genCfg exHist, toks := p.1.t, next := p.1.next, now := p.1.now,
+    streams := [{ key := "/a/b".toList, segs := [1, 2, 3], owner := none }, { key := "/cam/1".toList, segs := [1, 2, 3], owner := none }] }
+
+def exSWorld : SWorld :=
+  let p := grun Auth.genCfg TState.init [] exTokOps
+  { authOn := true, hist := exHist, grants := p.2, now := p.1.now }
+
+/-- `Rel` — the hypothesis of every entry-point theorem — holds of this world (by the two halves
+    proved for every history: `c11_rel_users` and `c11_tokens_simulate_grants`) -/
+theorem c11_example_world_related : Rel Auth.genCfg env exWorld exSWorld :=
+  c11_rel_users exWorld exSWorld rfl rfl (fun t => c11_tokens_simulate_grants exTokOps t)
+
+/-- the same world written with the reviewed configuration (for evaluation) -/
+def exWorldF : World :=
+  let p := grun cfgFixed TState.init [] exTokOps
+  { authOn := true, users := usersOf cfgFixed exHist, toks := p.1.t, next := p.1.next, now := p.1.now,
+    streams := [{ key := "/a/b".toList, segs := [1, 2, 3], owner := none }, { key := "/cam/1".toList, segs := [1, 2, 3], owner := none }] }
+
+theorem exWorld_eq : exWorld = exWorldF := by
+  unfold exWorld exWorldF
+  rw [c11_cfg_is_reviewed]
+
+/-- ... and the theorems are not true of it for the trivial reason that everything is refused or
+    everything granted (a test on literals, evaluated by `decide`): tokens are 0/1 alice, 2/3 bob
+    (refreshed away), 4/5 bob's new pair, 6/7 root.  alice is served `/cam/1` as FLV, playlist and
+    segment and refused `/a/b`; bob's superseded token and his refresh token are refused, his new
+    token gets `/a/b` but — narrowed — no longer `/a/c`; only root passes the user API; bob's own
+    `user_name_in_token: root` header changes nothing. -/
+theorem c11_example_outcomes :
+    (httpStreamH Auth.genCfg exWorld .get "/streams/cam/1.flv".toList (some 0) []).2 = .serve .flv "/cam/1".toList ∧
+    (httpStreamH Auth.genCfg exWorld .get "/streams/cam/1.m3u8".toList (some 0) []).2 = .serve .m3u8 "/cam/1".toList ∧
+    (httpStreamH Auth.genCfg exWorld .get "/streams/cam/1/2.ts".toList (some 0) []).2 = .serve .ts "/cam/1".toList ∧
+    (httpStreamH Auth.genCfg exWorld .get "/streams/a/b.flv".toList (some 0) []).2 = .forbidden ∧
+    (httpStreamH Auth.genCfg exWorld .get "/streams/a/b.flv".toList (some 2) []).2 = .unauthorized ∧
+    (httpStreamH Auth.genCfg exWorld .get "/streams/a/b.flv".toList (some 5) []).2 = .unauthorized ∧
+    (httpStreamH Auth.genCfg exWorld .get "/streams/a/b.flv".toList (some 4) []).2 = .serve .flv "/a/b".toList ∧
+    (httpStreamH Auth.genCfg exWorld .connect "/streams/a/../a/c.flv".toList (some 4) []).2 = .forbidden ∧
+    (apiGateH Auth.genCfg exWorld .get true "/api/v1/users".toList (some 6) []).2 = .pass "root".toList ∧
+    (apiGateH Auth.genCfg exWorld .get true "/api/v1/users".toList (some 4) ["root".toList]).2 = .forbidden ∧
+    (wsUpgradeH Auth.genCfg exWorld "/streams/a/b".toList (some 4) .rtsp ["root".toList]).2
+      = .upgraded { path := "/a/b".toList, user := "bob".toList } := by
+  rw [exWorld_eq, c11_cfg_is_reviewed]
+  decide
+
+/-- non-vacuity of `c11_rtsp_step_ok`: a new plain session in the example world and bob's first
+    DESCRIBE (no credentials yet) meet every hypothesis; so does the session after it. -/
+example :
+    let s := newRtspSess exWorld 7 none
+    let rq : RtspReq := { method := .describe, urlPath := "/a/b".toList, cred := none }
+    Rel Auth.genCfg env exWorld exSWorld ∧ exSWorld.authOn = true ∧ s.digest = (s.ws.isNone && exWorld.authOn) ∧
+      SInv Auth.genCfg s ∧ SessRel s {} ∧ FreshOK s rq ∧
+      SInv Auth.genCfg (rtspStep Auth.genCfg exWorld s rq).2.1 := by
+  intro s rq
+  obtain ⟨i1, i2, i3⟩ := c11_rtsp_plain_session_init exWorld 7
+  refine ⟨c11_example_world_related, rfl, i3, i1, i2, ?_, (c11_rtsp_invariants exWorld s {} i1 i2 rq).1⟩
+  intro c hc; cases hc
+
+/-- non-vacuity of the WebSocket / WSP session theorems: `/a/b` is its own canonical form, so the
+    `_partial` initialisation theorems apply to sessions opened on it. -/
+example : canonicalPath Auth.genCfg "/a/b".toList = "/a/b".toList ∧
+    WspInv Auth.genCfg exWorld { chan := 0, conn := { path := "/a/b".toList, user := "bob".toList } } := by
+  have h : canonicalPath Auth.genCfg "/a/b".toList = "/a/b".toList := by rw [c11_cfg_is_reviewed]; decide
+  exact ⟨h, c11_wsp_session_init_partial exWorld 0 _ h⟩
+
+/-- non-vacuity of the token theorems' hypotheses: after the example history, record 4/5 is stored
+    under its access secret, unexpired -/
+example :
+    let st := TState.init.run cfgFixed exTokOps
+    ∃ tok, tget st.t 4 = some tok ∧ tok.a = 4 ∧ tok.user = "bob".toList ∧ st.now < tok.aexp := by
+  decide
+
+end
 
 /-! ## secrecy of tokens and nonces -/
 
